@@ -418,6 +418,121 @@ theorem wait_burst_regression :
     (wait 5 none 100 10 Consumer.init ws).res = .entry ⟨0x2001, 1, [1, 2, 3, 4, 5], 1⟩ := by
   decide
 
+/-! ## T long histories — nothing bounds the log, the active list or the invocations -/
+
+/-- The driver's linear runner computes what the model defines: consumer state (`run`), callback
+    invocations and raised events (`trace`) and the sizes of the active list (`activeLens`), for
+    every history from every state. -/
+theorem runFast_spec (nid : Nat) (c : Consumer) (evs : List Ev) :
+    (runFast nid (Fast.ofConsumer c) evs).consumer = run nid c evs ∧
+    (runFast nid (Fast.ofConsumer c) evs).rinv.reverse = (trace nid c evs).flatMap (·.invoked) ∧
+    (runFast nid (Fast.ofConsumer c) evs).nraised = countRaised (trace nid c evs) ∧
+    (runFast nid (Fast.ofConsumer c) evs).ralens.reverse = activeLens nid c evs := by
+  have h := runFast_spec_aux nid evs (Fast.ofConsumer c) (fast_ofConsumer_WF c)
+  rw [fast_consumer_ofConsumer] at h
+  obtain ⟨h1, _, h3, h4, h5⟩ := h
+  refine ⟨h1, ?_, ?_, ?_⟩
+  · simpa [Fast.ofConsumer] using h3
+  · simpa [Fast.ofConsumer] using h4
+  · simpa [Fast.ofConsumer] using h5
+
+/-- One entry per frame, however long the history: from any state and for any history without
+    `reset()` call the log grows by exactly the delivered frames (no bound, nothing dropped); a run
+    of `n` frames (`repEvs`, the run-length token of the line protocol) appends its `n` entries in
+    order, and to the active list as well when none of its codes is an error reset. -/
+theorem long_history (nid : Nat) (c : Consumer) :
+    (∀ evs, Ev.reset ∉ evs →
+      (run nid c evs).log.length = c.log.length + (evs.filterMap (delivered nid)).length) ∧
+    (∀ n code0 cstep reg0 ts0,
+      (run nid c (repEvs n code0 cstep reg0 ts0)).log =
+        c.log ++ (List.range n).map (repEntry code0 cstep reg0 ts0) ∧
+      (run nid c (repEvs n code0 cstep reg0 ts0)).log.length = c.log.length + n ∧
+      ((∀ i, i < n → isResetCode ((code0 + i * cstep) % 65536) = false) →
+        (run nid c (repEvs n code0 cstep reg0 ts0)).active =
+          c.active ++ (List.range n).map (repEntry code0 cstep reg0 ts0) ∧
+        (run nid c (repEvs n code0 cstep reg0 ts0)).active.length = c.active.length + n)) := by
+  refine ⟨fun evs h => by rw [run_log nid evs c h]; simp, fun n code0 cstep reg0 ts0 => ?_⟩
+  have hl := run_log nid _ c (repEvs_no_reset n code0 cstep reg0 ts0)
+  rw [repEvs_delivered] at hl
+  refine ⟨hl, by rw [hl]; simp, fun hc => ?_⟩
+  have hcl : ∀ ev ∈ repEvs n code0 cstep reg0 ts0, clears nid ev = false := by
+    intro ev hev
+    simp only [repEvs, List.mem_map, List.mem_range] at hev
+    obtain ⟨i, hi, rfl⟩ := hev
+    simp [clears, delivered, entryOfFrame_repFrame, hc i hi]
+  have ha := run_active nid _ c hcl
+  rw [repEvs_delivered] at ha
+  exact ⟨ha, by rw [ha]; simp⟩
+
+/-! ## T several threads in `wait` at once -/
+
+/-- Waiting threads do not consume entries or notifications: the program with `k` threads is the
+    juxtaposition of `k` programs with one thread each (same consumer, same schedule), and the
+    consumer is the one produced by the schedule's events — the threads change nothing. -/
+theorem waiters_independent (nid : Nat) (c : Consumer) (ws : List Waiter) (sched : List SEv) :
+    (sysRun nid (c, ws) sched).1 = run nid c (evsOf sched) ∧
+    (sysRun nid (c, ws) sched).2 = ws.flatMap (fun w => (sysRun nid (c, [w]) sched).2) ∧
+    (sysRun nid (c, ws) sched).2.length = ws.length := by
+  refine ⟨by rw [sysRun_eq], ?_, by rw [sysRun_eq]; simp⟩
+  rw [sysRun_eq]
+  simp only [sysRun_eq, List.map_cons, List.map_nil]
+  induction ws with
+  | nil => rfl
+  | cons w ws ih => simp [List.flatMap_cons, ih]
+
+/-- Each of the threads behaves as the single-waiter model `waitLoop` (to which `wait_next_matching`,
+    `wait_sound`, `wait_nothing_without_match` apply) run on the thread's own view of the schedule:
+    it has returned iff the loop returns within the wake-ups of the view, and then with that result
+    — whatever the other threads wait for, whenever they run. -/
+theorem mwait_refines_wait (nid : Nat) (c : Consumer) (specs : List (Option Nat × Nat)) (sched : List SEv)
+    (i : Nat) (f : Option Nat) (d : Nat) (hi : specs[i]? = some (f, d)) :
+    ((sysRun nid (c, enterAll c specs) sched).2[i]?).map (·.res) =
+      some (if (waitLoop nid f d c (viewFrom i [] sched).1).waits ≤ (viewFrom i [] sched).1.length
+            then some (waitLoop nid f d c (viewFrom i [] sched).1).res else none) := by
+  rw [sysRun_eq]
+  simp only [enterAll, List.getElem?_map, List.getElem?_zipIdx, hi, Option.map_some, Nat.zero_add,
+    Waiter.enter]
+  have := wRun_blocked nid i f d sched c [] false
+  rw [run_nil] at this
+  rw [this]
+
+/-- No lost wake-up: a thread that is still blocked after a schedule is marked runnable
+    (`notify_all` reached it) exactly when a frame was received since it last looked. -/
+theorem mwait_no_lost_wakeup (nid : Nat) (c : Consumer) (specs : List (Option Nat × Nat)) (sched : List SEv)
+    (i : Nat) (f : Option Nat) (d : Nat) (hi : specs[i]? = some (f, d)) :
+    ∃ w, (sysRun nid (c, enterAll c specs) sched).2[i]? = some w ∧
+      (w.res = none → w.notified = (viewFrom i [] sched).2.any (notifies nid)) := by
+  rw [sysRun_eq]
+  simp only [enterAll, List.getElem?_map, List.getElem?_zipIdx, hi, Option.map_some, Nat.zero_add,
+    Waiter.enter]
+  refine ⟨_, rfl, ?_⟩
+  have := wRun_notified nid i f d sched c []
+  rw [run_nil] at this
+  simpa using this
+
+/-- "A waiting caller is handed the next matching entry", every caller: if thread `i` came back from
+    `Condition.wait` only because a frame had been received, and by its deadline (`FairView`), then
+    it has been handed the FIRST entry matching its filter among the entries received since it
+    started to wait and up to its last look, and it is still waiting iff there is none —
+    irrespective of how many other threads wait, of their filters and of the order in which the
+    threads run.  When nothing was received after its last look these are all the entries received
+    since it started to wait. -/
+theorem mwait_first_matching (nid : Nat) (c : Consumer) (specs : List (Option Nat × Nat)) (sched : List SEv)
+    (i : Nat) (f : Option Nat) (d : Nat) (hi : specs[i]? = some (f, d))
+    (hfair : FairView nid d (viewFrom i [] sched)) :
+    ((sysRun nid (c, enterAll c specs) sched).2[i]?).map (·.res) =
+      some ((((viewFrom i [] sched).1.flatMap (arrivals nid)).find? (matchesFilter f)).map .entry) ∧
+    ((viewFrom i [] sched).2.filterMap (delivered nid) = [] →
+      (viewFrom i [] sched).1.flatMap (arrivals nid) = (evsOf sched).filterMap (delivered nid)) := by
+  refine ⟨?_, fun ht => ?_⟩
+  · rw [mwait_refines_wait nid c specs sched i f d hi,
+      waitLoop_fair nid f d (viewFrom i [] sched).1 c hfair.1 hfair.2]
+  · have h := viewFrom_evs i sched []
+    rw [arrivals_flatMap]
+    have h2 := congrArg (List.filterMap (delivered nid)) h
+    rw [List.filterMap_append, ht] at h2
+    simpa using h2
+
 /-! ## observation (outside the property's quantifier): `reset()` racing with `wait()` -/
 
 /-- `EmcyConsumer.reset()` called while another thread waits confuses the length test of `wait`:
@@ -485,6 +600,36 @@ example :
     (wait 5 (some 0x2001) 100 10 Consumer.init (ws.take 1)).res = .nothing ∧
     (wait 5 (some 0x2001) 100 10 Consumer.init (ws.take 1)).waits = 2 := by
   decide
+
+/-- `long_history`: a run whose codes are never error resets (constant 0x2001), and one whose codes
+    sweep through class 00xx (log keeps growing, active list is cut) -/
+example : (∀ i, i < 1200 → isResetCode ((0x2001 + i * 0) % 65536) = false) ∧
+    (run 5 Consumer.init (repEvs 1200 0x2001 0 0 0)).log.length = 1200 ∧
+    (run 5 Consumer.init (repEvs 30 0x00F0 1 250 7)).log.length = 30 ∧
+    (run 5 Consumer.init (repEvs 30 0x00F0 1 250 7)).active.length = 14 ∧
+    ((runFast 5 (Fast.ofConsumer Consumer.init) (.addCb 1 :: repEvs 30 0x00F0 1 250 7)).rinv.length = 30) := by
+  refine ⟨fun i _ => by simp [isResetCode], ?_, by decide, by decide, by decide⟩
+  simpa [Consumer.init] using ((long_history 5 Consumer.init).2 1200 0x2001 0 0 0).2.1
+
+/-- `mwait_*`: three threads on node 4 (any code, 0x8110, 0x5000), one frame 0x8110, then 0x2001:
+    the harness's schedule hands the first frame to threads 0 and 1 and nothing to thread 2; the
+    hypotheses of `mwait_first_matching` hold for thread 1 in a schedule where thread 0 runs first,
+    and for thread 2 (whose filter matches nothing) while it is still blocked and not runnable -/
+example :
+    let x : Bytes := [0x10, 0x81, 0x11, 0x78, 0x79, 0x7a, 0, 0]
+    let y : Bytes := [0x01, 0x20, 1, 1, 2, 3, 4, 5]
+    let specs : List (Option Nat × Nat) := [(none, 120), (some 0x8110, 120), (some 0x5000, 120)]
+    let sched : List SEv := [.ev (.frame x 2), .runs 0 105, .runs 2 105, .runs 1 105, .ev (.frame y 3), .runs 2 106]
+    ((sysRun 4 (Consumer.init, enterAll Consumer.init specs)
+        (rigSchedule 4 [0, 1, 2] [⟨105, [.frame x 2]⟩, ⟨106, [.frame y 3]⟩] 1000000100)).2.map (·.res)) =
+      [some (.entry ⟨0x8110, 0x11, [0x78, 0x79, 0x7a, 0, 0], 2⟩),
+       some (.entry ⟨0x8110, 0x11, [0x78, 0x79, 0x7a, 0, 0], 2⟩), some .nothing] ∧
+    FairView 4 120 (viewFrom 1 [] sched) ∧ FairView 4 120 (viewFrom 2 [] sched) ∧
+    (viewFrom 2 [] sched).2.filterMap (delivered 4) = [] ∧
+    ((sysRun 4 (Consumer.init, enterAll Consumer.init specs) sched).2.map (fun w => (w.res, w.notified))) =
+      [(some (.entry ⟨0x8110, 0x11, [0x78, 0x79, 0x7a, 0, 0], 2⟩), false),
+       (some (.entry ⟨0x8110, 0x11, [0x78, 0x79, 0x7a, 0, 0], 2⟩), false), (none, false)] := by
+  refine ⟨by decide, ⟨by decide, by decide⟩, ⟨by decide, by decide⟩, by decide, by decide⟩
 
 /-- `descriptions`: classes with and without sub-classes, and a code without class -/
 example : getDesc 0x2310 = "Current".toList ∧ getDesc 0x5000 = "Device Hardware".toList ∧
